@@ -786,6 +786,25 @@ func (e *env) grid() {
 	e.oneCase("csv", "rbac", nil, nil, sp("cpu"), true, []string{"v"})
 	e.oneCase("parquet", "rbac", sp("other_db"), nil, sp("cpu"), true, nil)
 	e.oneCase("parquet", "rbac", nil, nil, sp("cpu"), true, nil)
+	// (0b) several measurements in ONE request: allowed + allowed, allowed + denied, denied + allowed — every
+	// endpoint that can carry more than one measurement, every msgpack container shape
+	for _, pair := range [][2]string{{"cpu", "billing"}, {"billing", "cpu"}, {"cpu", "mem"}, {"cpu", "cpu"}} {
+		c1 := item{kind: 'C', m: mval{s: pair[0]}, cols: []string{"time", "v"}, nrows: 1}
+		c2 := item{kind: 'C', m: mval{s: pair[1]}, cols: []string{"time", "v"}, nrows: 1}
+		r1 := item{kind: 'R', m: mval{s: pair[0]}, fields: []string{"v"}}
+		r2 := item{kind: 'R', m: mval{s: pair[1]}, fields: []string{"v"}}
+		for _, its := range [][]item{{c1, c2}, {r1, r2}, {c1, r2}, {r1, c2}} {
+			e.mpCase("rbac", adb, nil, top{kind: 'M', it: item{kind: 'B', items: its}})
+			e.mpCase("rbac", adb, nil, top{kind: 'A', items: its})
+		}
+		pts := []point{{m: pair[0], fields: []string{"v"}}, {m: pair[1], fields: []string{"v"}}}
+		for _, ep := range []string{"v1", "v2", "simple", "import"} {
+			e.lpCase(ep, "rbac", adb, nil, nil, nil, pts)
+		}
+		e.lpCase("v1", "rbac", nil, adb, nil, nil, pts)
+		e.lpCase("v2", "rbac", nil, nil, adb, nil, pts)
+		e.lpCase("import", "rbac", nil, adb, nil, nil, pts)
+	}
 	hdrs := []*string{nil, sp(""), sp(allowedDB), sp("other_db"), sp("../x"), sp("1db")}
 	qvals := []*string{nil, sp(""), sp(allowedDB), sp("other_db"), sp("a/b")}
 	// (1) database header x query parameter, every combination, every endpoint, routing-like names everywhere
